@@ -125,7 +125,7 @@ impl A2 {
     fn judge(&self, s: &Scn) -> RunOut {
         let (input, pt) = build_input(s);
         let mut out = RunOut::default();
-        out.props = vec!["C10", "C04", "C07", "C08"];
+        out.props = vec!["C10", "C04", "C07", "C08", "C03"];
         // fault-free twin
         let twin = exec_once(s, &input, false, monitor_for(s, &input));
         let expected: &[u8] = &twin.run.sink;
@@ -252,6 +252,8 @@ impl A2 {
             // C04 post-run: Ok only with the complete plaintext; Err leaves a whole-chunk prefix
             if e.run.outcome.is_ok() && e.run.sink != pt {
                 out.violations.push(viol("C04", "ok_without_full_plaintext", format!("Ok with {} of {} plaintext bytes", e.run.sink.len(), pt.len())));
+                // C03's second half: success means the destination holds the complete original plaintext
+                out.violations.push(viol("C03", "success_with_incomplete_output", format!("decryption of an authentic file reported success, but the destination holds {} of {} plaintext bytes (faults {:?})", e.run.sink.len(), pt.len(), &e.fault_log[..e.fault_log.len().min(3)])));
             }
         }
         // C08: a file the encryptor reports as complete has exactly header + 32 per chunk + |P| bytes,
@@ -335,7 +337,7 @@ impl Family for A2 {
         "a2"
     }
     fn properties(&self) -> &'static [&'static str] {
-        &["C10", "C04", "C07", "C08"]
+        &["C10", "C04", "C07", "C08", "C03"]
     }
     fn budget(&self, tier: Tier, p: &str) -> u64 {
         let q = match p {
